@@ -107,11 +107,14 @@ def chunkSizeLimit : Nat := 1024 * 1024
 /-- `writeChunk`. -/
 def writeChunk (data : Bytes) : Bytes := putUvarint data.length ++ data
 
-/-- `readChunk`.  The last test is `bytes.Reader.Read`, which returns `io.EOF`
-at the end of the input even for a zero-length buffer. -/
+/-- `readChunk`.  The first test rejects padded length prefixes (the number of
+bytes `ReadUvarint` consumed must be the length of `PutUvarint` of the value);
+the last test is `bytes.Reader.Read`, which returns `io.EOF` at the end of the
+input even for a zero-length buffer. -/
 def readChunk (r : Bytes) : Res (Bytes × Bytes) := do
   let (len, r1) ← readUvarint r
-  if chunkSizeLimit < len then .error
+  if r.length - r1.length ≠ (putUvarint len).length then .error
+  else if chunkSizeLimit < len then .error
   else if r1.length < len then .error
   else if r1.isEmpty then .error
   else pure (r1.take len, r1.drop len)
@@ -132,13 +135,6 @@ def readFixedN (n : Nat) : Nat → Bytes → Res (List Nat × Bytes)
     let (v, r1) ← readFixed n r
     let (vs, r2) ← readFixedN n k r1
     pure (v :: vs, r2)
-
-/-- `reader.Read(buf)` with `len(buf) = n` (NOT `ReadFull`): `io.EOF` only
-when nothing is left; otherwise whatever is there is copied and the rest of
-the (zeroed) buffer stays zero. -/
-def readSome (n : Nat) (r : Bytes) : Res (Bytes × Bytes) :=
-  if r.isEmpty then .error
-  else .ok (r.take n ++ List.replicate (n - r.length) 0, r.drop n)
 
 /-! ## bits.go -/
 
@@ -291,16 +287,17 @@ def encodeRound1 (c : Curve) (p : Round1) : Res Bytes :=
   if p.curveName ≠ [] ∧ p.curveName ≠ c.name then .error
   else .ok (header magicR1 p.sid ++ (writeChunk c.name ++ (beBytes c.byteLen p.ax ++ beBytes c.byteLen p.ay)))
 
-/-- `DecodeRound1` / `decodeOTSetup`.  Bytes after the second coordinate are
-not looked at. -/
+/-- `DecodeRound1` / `decodeOTSetup`; input left after the second coordinate
+is an error. -/
 def decodeRound1 (c : Curve) (data : Bytes) : Res Round1 := do
   let (sid, r) ← readHeader magicR1 data
   let (name, r1) ← readChunk r
   if name ≠ c.name then .error
   else
     let (x, r2) ← readFixed c.byteLen r1
-    let (y, _) ← readFixed c.byteLen r2
-    pure { sid := sid, curveName := name, ax := x, ay := y }
+    let (y, r3) ← readFixed c.byteLen r2
+    if r3 ≠ [] then .error
+    else pure { sid := sid, curveName := name, ax := x, ay := y }
 
 /-! ## Round 2 -/
 
@@ -411,7 +408,7 @@ def encodeGarblerSession (c : Curve) (s : GarblerSession) : Res Bytes := do
   let inner ← encodeSenderSetup c s
   pure (header magicGS s.sid ++ writeChunk inner)
 
-/-- `decodeCOSenderSetup`.  Bytes after the fifth field are not looked at. -/
+/-- `decodeCOSenderSetup`; input left after the fifth field is an error. -/
 def decodeSenderSetup (c : Curve) (sid : Nat) (chunk : Bytes) : Res GarblerSession := do
   let (name, r1) ← readChunk chunk
   if name ≠ c.name then .error
@@ -420,14 +417,16 @@ def decodeSenderSetup (c : Curve) (sid : Nat) (chunk : Bytes) : Res GarblerSessi
     let (ax, r3) ← readFixed c.byteLen r2
     let (ay, r4) ← readFixed c.byteLen r3
     let (ix, r5) ← readFixed c.byteLen r4
-    let (iy, _) ← readFixed c.byteLen r5
-    pure { sid := sid, curveName := name, scalar := sc, ax := ax, ay := ay, ainvx := ix, ainvy := iy }
+    let (iy, r6) ← readFixed c.byteLen r5
+    if r6 ≠ [] then .error
+    else pure { sid := sid, curveName := name, scalar := sc, ax := ax, ay := ay, ainvx := ix, ainvy := iy }
 
-/-- `DecodeGarblerSession`.  Bytes after the chunk are not looked at. -/
+/-- `DecodeGarblerSession`; input left after the chunk is an error. -/
 def decodeGarblerSession (c : Curve) (data : Bytes) : Res GarblerSession := do
   let (sid, r) ← readHeader magicGS data
-  let (chunk, _) ← readChunk r
-  decodeSenderSetup c sid chunk
+  let (chunk, rest) ← readChunk r
+  if rest ≠ [] then .error
+  else decodeSenderSetup c sid chunk
 
 /-! ## Evaluator session -/
 
@@ -444,9 +443,8 @@ def encodeEvaluatorSession (c : Curve) (s : EvaluatorSession) : Res Bytes := do
   let inner ← encodeChoiceBundle c s
   pure (header magicES s.sid ++ writeChunk inner)
 
-/-- `decodeChoiceBundle`.  The bit field is fetched with a plain `Read` (see
-`readSome`): a chunk that ends inside the bit field is accepted and the
-missing bits read as zero; bytes after the bit field are not looked at. -/
+/-- `decodeChoiceBundle`: the bit field is fetched with `io.ReadFull`; input
+left after it is an error. -/
 def decodeChoiceBundle (c : Curve) (sid : Nat) (chunk : Bytes) : Res EvaluatorSession := do
   let (name, r1) ← readChunk chunk
   if name ≠ c.name then .error
@@ -454,16 +452,19 @@ def decodeChoiceBundle (c : Curve) (sid : Nat) (chunk : Bytes) : Res EvaluatorSe
     let (ax, r2) ← readFixed c.byteLen r1
     let (ay, r3) ← readFixed c.byteLen r2
     let (scalars, r4) ← readFixedN c.byteLen nBits r3
-    let (raw, _) ← readSome signBytes r4
+    let (raw, r5) ← readFull signBytes r4
+    if r5 ≠ [] then .error
+    else
     let bits := bytesToBits raw
     if bits.length < nBits then .error
     else pure { sid := sid, curveName := name, ax := ax, ay := ay, scalars := scalars,
                 bits := bits.take nBits }
 
-/-- `DecodeEvaluatorSession`.  Bytes after the chunk are not looked at. -/
+/-- `DecodeEvaluatorSession`; input left after the chunk is an error. -/
 def decodeEvaluatorSession (c : Curve) (data : Bytes) : Res EvaluatorSession := do
   let (sid, r) ← readHeader magicES data
-  let (chunk, _) ← readChunk r
-  decodeChoiceBundle c sid chunk
+  let (chunk, rest) ← readChunk r
+  if rest ≠ [] then .error
+  else decodeChoiceBundle c sid chunk
 
 end Mpc.Sha2pc
